@@ -1,5 +1,6 @@
 """C19 - index-based incremental refitting (IndexClassifierWrapper)."""
 import ast
+from ..astutil import inline_temporaries as _it
 import copy
 
 from ..astutil import FuncTree, dominates
@@ -189,8 +190,26 @@ def run(p, report, tier):
         guard = [n for n in ast.walk(f.node) if isinstance(n, ast.If) and "isnan" in ast.unparse(n.test)
                  and any(isinstance(s, ast.Raise) for s in n.body)]
         pre = [c for c in deleg_calls(f.node) if c.args and isinstance(c.args[0], ast.Name)]
-        ok = bool(guard) and bool(pre) and all(dominates(tree, guard[0], tree.stmt_of(c)) and
-                                               c.args[0].id in names_in(guard[0].test) for c in pre)
+        def guarded(c):
+            blk = c.args[0].id
+            if guard and dominates(tree, guard[0], tree.stmt_of(c)) and blk in names_in(guard[0].test):
+                return True
+            # the block comes from a private helper that raises on NaN before returning it
+            for d in ast.walk(f.node):
+                if isinstance(d, ast.Assign) and any(isinstance(t, ast.Name) and t.id == blk for t in d.targets) \
+                        and isinstance(d.value, ast.Call) and isinstance(d.value.func, ast.Attribute) \
+                        and isinstance(d.value.func.value, ast.Name) and d.value.func.value.id == "self":
+                    hm = ci.methods.get(d.value.func.attr)
+                    if hm is None:
+                        continue
+                    ht = FuncTree(hm.node)
+                    hg = [n for n in ast.walk(hm.node) if isinstance(n, ast.If) and "isnan" in ast.unparse(n.test)
+                          and any(isinstance(s_, ast.Raise) for s_ in n.body)]
+                    rets = [n for n in ast.walk(hm.node) if isinstance(n, ast.Return) and isinstance(n.value, ast.Name)]
+                    if hg and rets and all(dominates(ht, hg[0], r_) and r_.value.id in names_in(hg[0].test) for r_ in rets):
+                        return True
+            return False
+        ok = bool(pre) and all(guarded(c) for c in pre)
         report.add("R19.4", f.qual, "NaN guard on the kernel block dominates the precomputed prediction",
                    f"{f.file}:{f.node.lineno}", ok)
     init = ci.methods["__init__"]
@@ -207,7 +226,7 @@ def run(p, report, tier):
     report.add("R19.4", "IndexClassifierWrapper.precompute", "kernel from the wrapped classifier's metric and metric_dict",
                f"{pc.file}:{pc.node.lineno}", okp and usek, detail=str(prov))
     for mname, f in sorted(ci.methods.items()):
-        da = DefiniteAssignment(f.node).run()
+        da = DefiniteAssignment(_it(f.node)).run()
         report.add("R19.2", f.qual, "all locals bound before use", f"{f.file}:{f.node.lineno}", not da.reports,
                    detail="; ".join(da.reports), nontrivial=False)
     report.assumptions += ["equality with a retrained reference classifier is not decided"]
